@@ -418,6 +418,8 @@ func compareSeqs(pl *C01Plan, got []gotSeq) *simrt.Violation {
 }
 
 func runC01(t *testing.T, c *Case, o RunOpts) *Result {
+	noteCase(c)
+	defer progress.Add(1)
 	var pl C01Plan
 	if err := json.Unmarshal(c.Plan, &pl); err != nil {
 		return &Result{ToolErr: err.Error()}
